@@ -33,6 +33,8 @@ theorem applyRes_retryRec (cfg : Cfg) (pol : Policy) (step : Nat) (tickEv : Ev) 
   | failed exc failedAt =>
     simp only [applyRes]
     split
+    · rfl
+    split
     · simp
     all_goals
       split
